@@ -14,6 +14,7 @@ import (
 	"github.com/taskctl/taskctl/pkg/runner"
 	"github.com/taskctl/taskctl/pkg/scheduler"
 	"github.com/taskctl/taskctl/pkg/task"
+	"github.com/taskctl/taskctl/pkg/variables"
 	"pgregory.net/rapid"
 
 	"verif/harness/cli"
@@ -41,6 +42,11 @@ type Case struct {
 	ChainFail []bool   `json:"chain_fail,omitempty"` // command i of the chain fails after printing (the chain task allows failures)
 	Format    string   `json:"format,omitempty"`     // output format of the run: raw (default) | prefixed | cockpit
 	CLI       bool     `json:"cli,omitempty"`
+	// Ctx: producer and consumers run in a named execution context (with an env entry of its own).
+	// Second: a second producer that writes this text to the same variable (same exportAs, or a task name that maps
+	// to the same <NAME>_OUTPUT) runs after the first pipeline on the same runner; its own dependant must read it.
+	Ctx    bool   `json:"ctx,omitempty"`
+	Second string `json:"second,omitempty"`
 }
 
 func (c Case) canon() string { b, _ := json.Marshal(c); return string(b) }
@@ -77,6 +83,51 @@ func (c Case) varName() string {
 		return c.ExportAs
 	}
 	return envName(c.Name)
+}
+
+// secondName is the name of the second producer: with exportAs any other name will do; without, a different name
+// that maps to the same environment variable (a letter in the other case, or another character outside the set
+// that is kept); "" if the name allows neither (API runs may use the very same name).
+func (c Case) secondName() string {
+	if c.ExportAs != "" {
+		return "second-producer"
+	}
+	b := []byte(c.Name)
+	for i, ch := range b {
+		switch {
+		case ch >= 'a' && ch <= 'z':
+			b[i] = ch - 32
+			return string(b)
+		case ch >= 'A' && ch <= 'Z':
+			b[i] = ch + 32
+			return string(b)
+		}
+	}
+	for i, ch := range b {
+		if !(ch >= '0' && ch <= '9') && ch != '_' && i > 0 {
+			if ch == '+' {
+				b[i] = '='
+			} else {
+				b[i] = '+'
+			}
+			return string(b)
+		}
+	}
+	return ""
+}
+
+func (c Case) checkSecond(dir string) error {
+	if c.Second == "" {
+		return nil
+	}
+	b, err := os.ReadFile(filepath.Join(dir, "out-second"))
+	if err != nil {
+		return fmt.Errorf("the dependant of the second producer did not run: %v", err)
+	}
+	if string(b) != c.Second+"\n" {
+		return fmt.Errorf("the dependant of the second producer read $%s = %q; the second producer wrote %q (the first one had written %q)", c.varName(), trunc(string(b)), c.Second, trunc(c.want()))
+	}
+	return nil
 }
 
 func (c Case) dependants() map[int]bool {
@@ -177,7 +228,14 @@ func runAPI(c Case, dir string) error {
 	if err != nil {
 		return fmt.Errorf("graph: %v", err)
 	}
-	r, _ := runner.NewTaskRunner()
+	var ropts []runner.Opts
+	if c.Ctx {
+		ropts = append(ropts, runner.WithContexts(map[string]*runner.ExecutionContext{"cx": runner.NewExecutionContext(nil, "", variables.FromMap(map[string]string{"CX": "1"}), nil, nil, nil, nil)}))
+		for _, st := range stages {
+			st.Task.Context = "cx"
+		}
+	}
+	r, _ := runner.NewTaskRunner(ropts...)
 	r.Stdout, r.Stderr = io.Discard, io.Discard
 	if c.Format != "" {
 		r.OutputFormat = c.Format
@@ -186,6 +244,26 @@ func runAPI(c Case, dir string) error {
 	hook.SetPause(s, 2_000_000)
 	if err := s.Schedule(g); err != nil {
 		return fmt.Errorf("schedule: %v", err)
+	}
+	if c.Second != "" {
+		f := filepath.Join(dir, "payload-second")
+		os.WriteFile(f, []byte(c.Second), 0o644)
+		p2 := task.FromCommands("cat " + f)
+		p2.Name, p2.ExportAs = c.Name, c.ExportAs
+		c2 := task.FromCommands(consumerCmd(c.varName(), filepath.Join(dir, "out-second")))
+		c2.Name = "consumer-second"
+		if c.Ctx {
+			p2.Context, c2.Context = "cx", "cx"
+		}
+		g2, err := scheduler.NewExecutionGraph(&scheduler.Stage{Name: "c2", Task: c2, DependsOn: []string{"p2"}}, &scheduler.Stage{Name: "p2", Task: p2})
+		if err != nil {
+			return fmt.Errorf("graph 2: %v", err)
+		}
+		s2 := scheduler.NewScheduler(r)
+		hook.SetPause(s2, 2_000_000)
+		if err := s2.Schedule(g2); err != nil {
+			return fmt.Errorf("schedule 2: %v", err)
+		}
 	}
 	if len(c.Chain) > 0 {
 		ch := task.FromCommands(c.chainCommands(dir)...)
@@ -196,7 +274,10 @@ func runAPI(c Case, dir string) error {
 		}
 	}
 	out := prod.Output()
-	return c.checkFiles(dir, &out)
+	if err := c.checkFiles(dir, &out); err != nil {
+		return err
+	}
+	return c.checkSecond(dir)
 }
 
 func runCLI(c Case, dir string) error {
@@ -246,7 +327,29 @@ func runCLI(c Case, dir string) error {
 		}
 		tasks = tasks.Set("chain-task", gen.Map{{K: "command", V: l}, {K: "allow_failure", V: true}})
 	}
-	cfg := gen.Map{{K: "tasks", V: tasks}, {K: "pipelines", V: gen.Map{{K: "pp", V: stages}}}}
+	pipes := gen.Map{{K: "pp", V: stages}}
+	second := c.Second != "" && c.secondName() != ""
+	if second {
+		f := filepath.Join(dir, "payload-second")
+		os.WriteFile(f, []byte(c.Second), 0o644)
+		p2 := gen.Map{{K: "command", V: gen.List{"cat " + f}}}
+		if c.ExportAs != "" {
+			p2 = p2.Set("exportAs", c.ExportAs)
+		}
+		tasks = tasks.Set(c.secondName(), p2)
+		tasks = tasks.Set("consumer-second", gen.Map{{K: "command", V: gen.List{consumerCmd(c.varName(), filepath.Join(dir, "out-second"))}}})
+		pipes = pipes.Set("pp2", gen.List{gen.Map{{K: "name", V: "c2"}, {K: "task", V: "consumer-second"}, {K: "depends_on", V: gen.List{"p2"}}},
+			gen.Map{{K: "name", V: "p2"}, {K: "task", V: c.secondName()}}})
+	}
+	cfg := gen.Map{{K: "tasks", V: tasks}, {K: "pipelines", V: pipes}}
+	if c.Ctx {
+		cfg = cfg.Set("contexts", gen.Map{{K: "cx", V: gen.Map{{K: "env", V: gen.Map{{K: "CX", V: "1"}}}}}})
+		tm := gen.Map{}
+		for _, kv := range tasks {
+			tm = tm.Set(kv.K, kv.V.(gen.Map).Set("context", "cx"))
+		}
+		cfg = cfg.Set("tasks", tm)
+	}
 	os.WriteFile(filepath.Join(dir, "t.yaml"), []byte(gen.YAML(cfg)), 0o644)
 	env := cli.Env{Bin: drv.Bin(), Dir: dir, Home: filepath.Join(dir, "home")}
 	format := c.Format
@@ -254,6 +357,9 @@ func runCLI(c Case, dir string) error {
 		format = "raw"
 	}
 	args := []string{"-c", "t.yaml", "--output", format, "pp"}
+	if second {
+		args = append(args, "pp2")
+	}
 	if len(c.Chain) > 0 {
 		args = append(args, "chain-task")
 	}
@@ -261,7 +367,13 @@ func runCLI(c Case, dir string) error {
 	if r.Exit != 0 || r.Crashed() {
 		return fmt.Errorf("taskctl %v: exit %d timedOut=%v stderr %q", args, r.Exit, r.TimedOut, trunc(r.Stderr))
 	}
-	return c.checkFiles(dir, nil)
+	if err := c.checkFiles(dir, nil); err != nil {
+		return err
+	}
+	if !second {
+		return nil
+	}
+	return c.checkSecond(dir)
 }
 
 func trunc(s string) string {
@@ -352,6 +464,10 @@ func genCase(rt *rapid.T, cliMode bool) Case {
 	if len(c.dependants()) == 0 {
 		c.Edges = append(c.Edges, [2]int{c.Prod, c.N - 1})
 	}
+	c.Ctx = rapid.IntRange(0, 2).Draw(rt, "named-context") == 0
+	if rapid.IntRange(0, 2).Draw(rt, "second-producer") == 0 {
+		c.Second = rapid.StringMatching(`[a-z0-9 ]{1,12}`).Draw(rt, "second-text")
+	}
 	nchain := rapid.IntRange(0, 3).Draw(rt, "chain")
 	for i := 0; i < nchain; i++ {
 		c.Chain = append(c.Chain, rapid.StringMatching(`[A-Za-z0-9_./-]{1,20}`).Draw(rt, "token"))
@@ -397,6 +513,12 @@ func record(c Case) {
 	}
 	if transitive {
 		cls = append(cls, "transitive-consumer")
+	}
+	if c.Ctx {
+		cls = append(cls, "named-context")
+	}
+	if c.Second != "" {
+		cls = append(cls, "second-producer-of-the-same-variable")
 	}
 	drv.Eval(cls...)
 	if nonIdent || len(want) >= 4096 || strings.Count(want, "\n") >= 2 || jobs >= 2 {
